@@ -944,6 +944,91 @@ func (w *c19Worker) degraded() {
 	}
 }
 
+// histories: ONE reporter renders a sequence of diagnostics in files of different kinds — readable (two of them, with
+// different content on the same line numbers), unreadable, empty, shorter than the reported line — two diagnostics per
+// element of the sequence. Every rendering is judged like a first one: whatever the reporter remembers from earlier
+// diagnostics (line caches, buffers) must not show.
+func (w *c19Worker) histories() {
+	kinds := []string{"readable-a", "readable-b", "unreadable", "empty-file", "short-file"}
+	var seqs [][]int
+	var rec func(cur []int)
+	rec = func(cur []int) {
+		if len(cur) > 0 {
+			seqs = append(seqs, append([]int(nil), cur...))
+		}
+		if len(cur) == 3 {
+			return
+		}
+		for k := range kinds {
+			rec(append(cur, k))
+		}
+	}
+	rec(nil)
+	lay := c19Layouts[3] // "middle": diagnostic on line 10 of 12
+	for _, L := range []int{50, 250} {
+		for _, sq := range seqs {
+			fset := token.NewFileSet()
+			files := map[string]*c19File{}
+			pass := w.newPass(files, fset)
+			rep := reporting.NewReporter(pass, nil)
+			mk := map[int]*c19File{}
+			for _, k := range sq {
+				if mk[k] != nil {
+					continue
+				}
+				variant := 0
+				if kinds[k] == "readable-b" {
+					variant = 2
+				}
+				lines := c19BuildLines(func(m byte) string { return c19Line("ascii", L, m) }, lay, variant)
+				if kinds[k] == "readable-b" {
+					for i := range lines { // other markers than readable-a on every line
+						if i+1 == lay.D {
+							lines[i] = c19Line("ascii", L, c19Marker(i+7))
+						} else {
+							lines[i] = string(c19Coded(c19Marker(i+7), len(lines[i]), 2))
+						}
+					}
+				}
+				content := c19JoinLines(lines, true)
+				f := &c19File{name: fmt.Sprintf("/src/hist_%s_%d.go", kinds[k], L), layout: lay, variant: variant}
+				switch kinds[k] {
+				case "readable-a", "readable-b":
+					f.served, f.truth = []byte(content), c19Split(content)
+				case "unreadable":
+					f.readErr = errors.New("open: no such file or directory")
+				case "empty-file":
+					f.served = []byte{}
+				case "short-file":
+					short := c19JoinLines(lines[:4], true)
+					f.served, f.truth = []byte(short), c19Split(short)
+				}
+				f.tf = c19AddFile(fset, f.name, content)
+				files[f.name] = f
+				mk[k] = f
+			}
+			for step, k := range sq {
+				f := mk[k]
+				for _, col := range []int{1, L/2 + 1} {
+					c := &c19Case{f: f, class: "ascii", L: L, col: col, D: lay.D, kind: "normal", note: fmt.Sprintf("history %v, step %d", sq, step)}
+					switch kinds[k] {
+					case "readable-a", "readable-b":
+						c.line = f.truth[lay.D-1]
+						c.L = len(c.line)
+						if col > c.L+1 {
+							continue
+						}
+					default:
+						c.kind, c.allowNone = kinds[k], true
+					}
+					w.eval(rep, pass, c)
+					w.counts["history_cases"]++
+				}
+			}
+		}
+	}
+}
+
 func c19Lengths(tier common.Tier) []int {
 	var out []int
 	for L := 0; L <= 3*c19Limit; L++ {
@@ -964,7 +1049,7 @@ func C19(tier common.Tier) int {
 	}
 	run.SetRule(
 		"state = one call of reporting.NewReporter(pass,nil).ReportViolation on a hand-built analysis.Pass: (content class, line length L, byte column, layout of the file, neighbour variant), "+
-			"enumerated exhaustively; the diagnostic line and every neighbour are position-coded (every 5-byte window of a line is unique and carries the line's own marker letter), the message given to "+
+			"enumerated exhaustively; plus every sequence of up to 3 files of the kinds {readable a, readable b, unreadable, empty, shorter than the reported line} rendered by ONE reporter, two diagnostics per element, each judged like a first rendering (what the reporter remembers of earlier diagnostics must not show); the diagnostic line and every neighbour are position-coded (every 5-byte window of a line is unique and carries the line's own marker letter), the message given to "+
 			"Pass.Report is parsed and each numbered row is located in its source line by search; caret and character are compared by display cell after tab expansion (tab stops every 8 cells, one cell per rune or invalid byte). "+
 			"A case is non-trivial when the diagnostic line is longer than the display limit (needs truncation) or contains tabs or multi-byte characters, or when the input is degraded; "+
 			"distinct = distinct (class, L, column) for regular inputs (layout and neighbour variant are not counted as distinct), distinct (kind, file, line, column) for degraded ones.",
@@ -1000,6 +1085,7 @@ func C19(tier common.Tier) int {
 		if sh.I == 0 {
 			w.degraded()
 			w.adjusted()
+			w.histories()
 		}
 		w.flush()
 	})
